@@ -57,6 +57,7 @@ class CallCtx:
 
         def mk(fn):
             def cont(s2):
+                eng.cur_state = s2
                 h = s2.extra.pop("_call")
                 c2 = CallCtx(eng, s2, s2.frames[-1], outer.dest, outer.dest_ty, outer.ret_bb, outer.callee,
                              outer.norm, [h.fields[i] for i in range(len(outer.args))], outer.site)
@@ -342,6 +343,85 @@ def m_option_cloned(ctx):
     return ctx.fork([(tag == bv64(1), some), (tag == bv64(0), none)])
 
 
+def finish_call(eng, st, stash, node):
+    """Continuation helper: deliver `node` as the result of the modelled call recorded in stash."""
+    frame = st.frames[-1]
+    if stash.get("ret_bb") is None:
+        raise Cut("panic", "diverging modelled call returned")
+    if stash.get("dest") is not None:
+        dst = eng.place(st, frame, stash["dest"])
+        assign_node(dst, node)
+        if dst.ty is None:
+            dst.ty = stash.get("dest_ty")
+    frame.bb = stash["ret_bb"]
+    return True
+
+
+def call_stash(ctx, **kw):
+    d = {"dest": ctx.dest, "dest_ty": ctx.dest_ty, "ret_bb": ctx.ret_bb}
+    d.update(kw)
+    return d
+
+
+def m_ok_or_else(ctx):
+    """Option::ok_or_else(opt, f): Some(v) -> Ok(v); None -> Err(f())  (closure body executed from the dump)."""
+    o, f = ctx.args
+    tag = _opt_tag(ctx, o, "Option")
+
+    def some(c2):
+        v = payload(c2.eng, c2.args[0], "Some", 0)
+        return c2.ret(mk_enum(c2.eng, "Result", "Ok", [copy_node(v)], ty=c2.dest_ty))
+
+    def none(c2):
+        def cont(eng, st, stash, ret):
+            return finish_call(eng, st, stash, mk_enum(eng, "Result", "Err", [copy_node(ret)], ty=stash["dest_ty"]))
+        return c2.eng.call_closure(c2.st, c2.args[1], [], call_stash(c2), cont)
+
+    return ctx.fork([(tag == bv64(1), some), (tag == bv64(0), none)])
+
+
+def m_ok_or(ctx):
+    o, e = ctx.args
+    tag = _opt_tag(ctx, o, "Option")
+
+    def some(c2):
+        v = payload(c2.eng, c2.args[0], "Some", 0)
+        return c2.ret(mk_enum(c2.eng, "Result", "Ok", [copy_node(v)], ty=c2.dest_ty))
+
+    def none(c2):
+        return c2.ret(mk_enum(c2.eng, "Result", "Err", [copy_node(c2.args[1])], ty=c2.dest_ty))
+
+    return ctx.fork([(tag == bv64(1), some), (tag == bv64(0), none)])
+
+
+def m_map_err(ctx):
+    """Result::map_err(r, f): Ok(v) -> Ok(v); Err(e) -> Err(f(e)) with f a closure in the dump or a ctor."""
+    r, f = ctx.args
+    tag = _opt_tag(ctx, r, "Result")
+    ctor = _ctor_of(f)
+    if ctor is None and ctx.eng.closure_body(f.ty) is None:
+        return ctx.eng.uninterpreted(ctx.st, ctx.frame, ctx.dest, ctx.dest_ty, ctx.ret_bb, ctx.callee, ctx.norm,
+                                     ctx.args, ctx.site)
+
+    def ok(c2):
+        v = payload(c2.eng, c2.args[0], "Ok", 0)
+        return c2.ret(mk_enum(c2.eng, "Result", "Ok", [copy_node(v)], ty=c2.dest_ty))
+
+    def err(c2):
+        e = copy_node(payload(c2.eng, c2.args[0], "Err", 0))
+        if ctor is not None:
+            w = apply_ctor(c2, ctor, e)
+            if w is None:
+                raise Unsupported("map_err with fn item %s" % ctor)
+            return c2.ret(mk_enum(c2.eng, "Result", "Err", [w], ty=c2.dest_ty))
+
+        def cont(eng, st, stash, ret):
+            return finish_call(eng, st, stash, mk_enum(eng, "Result", "Err", [copy_node(ret)], ty=stash["dest_ty"]))
+        return c2.eng.call_closure(c2.st, c2.args[1], [e], call_stash(c2), cont)
+
+    return ctx.fork([(tag == bv64(0), ok), (tag == bv64(1), err)])
+
+
 def _ctor_of(arg):
     """fn-item operand naming an enum/tuple-struct constructor -> path text or None."""
     if arg.conc and isinstance(arg.conc, tuple) and arg.conc[0] == "const":
@@ -420,7 +500,8 @@ def m_int_method(ctx):
     """i64::wrapping_add & friends."""
     eng = ctx.eng
     meth = ctx.norm.rsplit("::", 1)[1]
-    ty = ctx.norm.split("::")[-2]
+    mt = re.search(r"<impl ([iu](?:8|16|32|64|128|size))>", ctx.norm)
+    ty = mt.group(1) if mt else ctx.norm.split("::")[-2]
     k = scalar_kind(ty)
     if k is None:
         raise Unsupported("int method on %s" % ty)
@@ -628,6 +709,31 @@ def m_panic(ctx):
     raise Cut("panic", msg)
 
 
+def m_gen_range(ctx):
+    """rand's documented contract for Rng::gen_range(low..high) on i64: panics iff the range is empty, otherwise
+    returns low <= v < high. The draw itself is an uninterpreted event (one per call) in the trace."""
+    eng = ctx.eng
+    rng, r = ctx.args
+    lo = eng.scalar(eng.field(r, 0, "i64"))
+    hi = eng.scalar(eng.field(r, 1, "i64"))
+    empty = z3.Not(lo < hi)
+
+    def bad(c2):
+        c2.event("gen_range(empty)", kind="note")
+        c2.panic("cannot sample empty range")
+
+    def ok(c2):
+        ev = c2.event("Rng::gen_range")
+        v = c2.eng.scalar(ev.ret, "i64")
+        c = z3.And(lo <= v, v < hi)
+        c2.st.pc.append(c)
+        c2.eng.solver.add(c)
+        c2.st.assumptions.append("rand contract: gen_range(lo..hi) returns lo <= v < hi")
+        return c2.ret(ev.ret)
+
+    return ctx.fork([(empty, bad), (z3.Not(empty), ok)])
+
+
 def install(eng):
     M = eng.models
     M["<Result as Try>::branch"] = m_result_branch
@@ -645,6 +751,9 @@ def install(eng):
     M["Result::is_err"] = m_result_is("err")
     M["Option::cloned"] = m_option_cloned
     M["Option::copied"] = m_option_cloned
+    M["Option::ok_or_else"] = m_ok_or_else
+    M["Option::ok_or"] = m_ok_or
+    M["Result::map_err"] = m_map_err
     M["Option::map"] = m_map_ctor("Option", "Some", "None")
     M["Result::map"] = m_map_ctor("Result", "Ok", "Err")
     M["std::mem::replace"] = m_mem_replace
@@ -661,6 +770,7 @@ def install(eng):
               "std::rt::panic_fmt", "core::panicking::unreachable_display", "unwrap_failed", "expect_failed",
               "core::panicking::panic_bounds_check", "std::rt::begin_panic"):
         M[p] = m_panic
+    M["<StdRng as Rng>::gen_range"] = m_gen_range
     R = eng.model_rx
     R.append((re.compile(r"<&?(?:i|u)(?:8|16|32|64|128|size) as (?:BitAnd|BitOr|BitXor)>::(?:bitand|bitor|bitxor)"),
               m_ref_binop))
